@@ -102,13 +102,17 @@ struct Scenario
 
 struct TimerWait : Scenario
 {
-	std::unique_ptr<asio::high_resolution_timer> t, t2;
-	const char* name() const override { return "timer-wait"; }
+	std::unique_ptr<asio::high_resolution_timer> t, t2; int kind; // 0 arm + wait; 1 arm, wait, cancel, wait again (the timer is queued again for its old expiry); 2 arm, cancel, wait
+	explicit TimerWait(int k = 0) : kind(k) {}
+	const char* name() const override { return kind == 0 ? "timer-wait" : kind == 1 ? "timer-wait-cancel-wait" : "timer-cancel-wait"; }
 	void build() override
 	{
 		basic_world(); asio::io_context& n = node("10.0.0.1");
 		t.reset(new asio::high_resolution_timer(n)); t2.reset(new asio::high_resolution_timer(n));
-		t->expires_after(ms(10)); t->async_wait(h_ec(rec("T.wait", 0)));
+		t->expires_after(ms(10));
+		if (kind == 0) t->async_wait(h_ec(rec("T.wait", 0)));
+		if (kind == 1) { t->async_wait(h_ec(rec("T.wait(first)", 5))); t->cancel(); t->async_wait(h_ec(rec("T.wait", 0))); }
+		if (kind == 2) { t->cancel(); t->async_wait(h_ec(rec("T.wait", 0))); }
 		t2->expires_after(ms(10)); t2->async_wait(h_ec(rec("T2.wait", 1), [this](error_code const&) { if (!dead[1]) { t2->expires_after(ms(5)); t2->async_wait(h_ec(rec("T2.wait2", 1))); } }));
 		add("T.cancel", 0, [this]() { if (t) t->cancel(); });
 		add("T.expires_after(re-arm)", 0, [this]() { if (t) t->expires_after(ms(3)); });
@@ -309,7 +313,7 @@ struct Resolve : Scenario
 std::vector<std::function<std::unique_ptr<Scenario>()>> scenario_table()
 {
 	std::vector<std::function<std::unique_ptr<Scenario>()>> t;
-	t.push_back([]() { return std::unique_ptr<Scenario>(new TimerWait); });
+	for (int k = 0; k < 3; ++k) t.push_back([k]() { return std::unique_ptr<Scenario>(new TimerWait(k)); });
 	for (int o = 0; o < 3; ++o) for (int wn = 0; wn < 3; ++wn) t.push_back([o, wn]() { return std::unique_ptr<Scenario>(new ConnectAccept(o, wn)); });
 	t.push_back([]() { return std::unique_ptr<Scenario>(new ConnectRefused); });
 	for (int k = 0; k < 6; ++k) t.push_back([k]() { return std::unique_ptr<Scenario>(new Established(k)); });
